@@ -369,6 +369,80 @@ def h2_scenario(seed, runtime, n_steps=18):
     return out
 
 
+def h2_reset_during_upload(runtime):
+    """A request whose stream the server resets while its body is still being sent - the RST_STREAM being read by *another* request that
+    holds the read lock - fails with RemoteProtocolError, and everything it held on the connection is given back: its stream is no longer
+    registered, so its slot is free and the connection can go idle once the others are done.  -> dict of what was observed"""
+    out = {"outcome_a": None, "outcome_b": None, "registered_after": None, "state_after": None}
+    clock = servers.Clock(0.0)
+
+    async def main():
+        srv = H2Srv(3)
+        stream = H2Stream(srv)
+        conn = SpyH2(httpcore.Origin(b"https", b"ex.org", 443), stream, keepalive_expiry=None, clock=clock)
+        gate = anyio.Event()
+
+        async def body():
+            yield b"a" * 1000
+            await gate.wait()              # the harness lets the upload continue only after the reset has been read
+            yield b"b" * 1000
+
+        class Body:
+            def __aiter__(self):
+                return body()
+
+        async def a():
+            try:
+                r = await conn.handle_async_request(httpcore.Request("POST", "https://ex.org/up", headers=[(b"Host", b"ex.org"), (b"Transfer-Encoding", b"chunked")], content=Body()))
+                await r.aread(); await r.aclose()
+                out["outcome_a"] = "ok"
+            except Exception as e:  # noqa
+                out["outcome_a"] = type(e).__name__
+
+        async def b():
+            try:
+                r = await conn.handle_async_request(httpcore.Request("GET", "https://ex.org/b", headers=[(b"Host", b"ex.org")]))
+                await r.aread(); await r.aclose()
+                out["outcome_b"] = "ok"
+            except Exception as e:  # noqa
+                out["outcome_b"] = type(e).__name__
+
+        with anyio.move_on_after(10.0):
+            async with anyio.create_task_group() as tg:
+                tg.start_soon(a)
+                await _settle(400)
+                tg.start_soon(b)
+                await _settle(400)
+                # the stream of the upload is the lowest id the server has seen headers for but no END_STREAM; reset it.  `b` is parked
+                # in the network read and will be the one to read the RST_STREAM
+                up = min(srv.c.streams) if srv.c.streams else None
+                if up is not None:
+                    try:
+                        srv.c.reset_stream(up, error_code=2)
+                    except Exception:  # noqa
+                        pass
+                    srv.out += srv.c.data_to_send()
+                    srv.wake()
+                await _settle(400)
+                gate.set()
+                await _settle(400)
+                for sid in list(srv.waiting):
+                    srv.waiting.remove(sid)
+                    if sid != up:
+                        srv.answer(sid)
+                await _settle(400)
+                out["registered_after"] = sorted(conn._events)
+                out["state_after"] = conn._state.name
+                tg.cancel_scope.cancel()
+
+    with servers.patched_clock(clock):
+        try:
+            anyio.run(main, backend=runtime)
+        except BaseException as e:  # noqa
+            out["error"] = repr(e)[:200]
+    return out
+
+
 def h2_model_lines(sc):
     """one driver line per check point (the log prefix up to that point + a query at the check's clock reading)"""
     lines = []
@@ -623,6 +697,15 @@ def run(rec, driver, rng, n_h2, n_h1, label):
                 if h1_model_cut(m) != impl:
                     rec.disagree("life-h1", {"seed": seed, "log": sc["log"][:n], "now": now, "readable": r, "impl": impl, "model": m, "steps": sc["steps"]})
                     break
+    if n_h2:
+        for rt in ("asyncio", "trio"):
+            o = h2_reset_during_upload(rt)
+            rec.evals += 1
+            rec.dist[f"life-h2:reset-during-upload:{o.get('outcome_a')}"] += 1
+            if o.get("error") or o.get("outcome_a") != "RemoteProtocolError" or o.get("registered_after") != [] or o.get("state_after") != "IDLE":
+                bad += 1
+                rec.fail("life-failed-request-keeps-its-stream", {"kind": "h2"}, {"runtime": rt, "observed": o,
+                                                                                    "replay_with": "connlife.h2_reset_during_upload(runtime)"})
     # a lock-step that never sees a completed exchange / an opened stream says nothing: treat a degenerate generator as a broken tie
     if n_h1 >= 100 and (rec.dist["life-h1-op:prog11"] == 0 or rec.dist["life-h1-op:prog00"] == 0 or rec.dist["life-h1-op:aclose"] == 0):
         rec.ctx.broken.append({"kind": "correspondence", "family": "life-h1", "what": "generator degenerate: no completed / failed / externally closed exchange"})
